@@ -36,27 +36,52 @@ pub struct ClientCfg {
     pub blank: bool,
     pub auto_logon: bool,
     pub check_cert: bool,
+    /// order in which the builder methods of Connector are called (an application may call them in any order,
+    /// and may call the setters of options it leaves off)
+    pub builder_order: u8,
 }
 
 impl ClientCfg {
     pub fn plain() -> ClientCfg {
         ClientCfg {
             width: 800, height: 600, layout: 0, name: "rdp-rs".into(), domain: "dom".into(), user: "usr".into(), password: "pw".into(),
-            use_hash: false, nla: false, restricted: false, blank: false, auto_logon: false, check_cert: false,
+            use_hash: false, nla: false, restricted: false, blank: false, auto_logon: false, check_cert: false, builder_order: 0,
         }
     }
 
     pub fn connector(&self) -> Connector {
-        let mut c = Connector::new()
-            .screen(self.width, self.height)
-            .credentials(self.domain.clone(), self.user.clone(), self.password.clone())
-            .set_restricted_admin_mode(self.restricted)
-            .auto_logon(self.auto_logon)
-            .blank_creds(self.blank)
-            .layout(LAYOUTS[self.layout].0)
-            .check_certificate(self.check_cert)
-            .name(self.name.clone())
-            .use_nla(self.nla);
+        let mut c = match self.builder_order % 3 {
+            0 => Connector::new()
+                .screen(self.width, self.height)
+                .credentials(self.domain.clone(), self.user.clone(), self.password.clone())
+                .set_restricted_admin_mode(self.restricted)
+                .auto_logon(self.auto_logon)
+                .blank_creds(self.blank)
+                .layout(LAYOUTS[self.layout].0)
+                .check_certificate(self.check_cert)
+                .name(self.name.clone())
+                .use_nla(self.nla),
+            1 => Connector::new()
+                .use_nla(self.nla)
+                .blank_creds(self.blank)
+                .auto_logon(self.auto_logon)
+                .check_certificate(self.check_cert)
+                .set_restricted_admin_mode(self.restricted)
+                .name(self.name.clone())
+                .layout(LAYOUTS[self.layout].0)
+                .credentials(self.domain.clone(), self.user.clone(), self.password.clone())
+                .screen(self.width, self.height),
+            _ => Connector::new()
+                .credentials(self.domain.clone(), self.user.clone(), self.password.clone())
+                .check_certificate(self.check_cert)
+                .blank_creds(self.blank)
+                .use_nla(self.nla)
+                .set_restricted_admin_mode(self.restricted)
+                .screen(self.width, self.height)
+                .auto_logon(self.auto_logon)
+                .layout(LAYOUTS[self.layout].0)
+                .name(self.name.clone()),
+        };
         if self.use_hash {
             c = c.set_password_hash(crate::scen::session::nt_hash_of(&self.password));
         }
@@ -133,6 +158,7 @@ pub fn gen_client_cfg(ctx: &mut Ctx, unicode: bool, allow_nla: bool) -> ClientCf
     c.use_hash = ctx.chance("use_hash", 1, 4);
     c.nla = allow_nla && ctx.chance("nla", 1, 2);
     c.check_cert = ctx.chance("check_cert", 1, 3);
+    c.builder_order = ctx.choose("builder_order", 3) as u8;
     c
 }
 
